@@ -18,7 +18,7 @@ from vmon.props import c11
 
 LEVEL = "exploration"
 SHARDS = {"quick": 16, "thorough": 16}
-MUST = ["write.twice", "write.after_namespace_change", "directed.documents", "write.via_write_xml", "cycle.g2g3_files", "write.after_parsing_packets", "write.after_other_writes", "history.variant_headers", "cycle.g2g3", "namespace.checked", "crossprocess.documents", "immutability.snapshots", "route.xml", "route.objects",
+MUST = ["write.twice", "environment.non_utc_time_zone", "write.after_namespace_change", "directed.documents", "write.via_write_xml", "cycle.g2g3_files", "write.after_parsing_packets", "write.after_other_writes", "history.variant_headers", "cycle.g2g3", "namespace.checked", "crossprocess.documents", "immutability.snapshots", "route.xml", "route.objects",
         "style.prefix", "style.default", "style.none"]
 RULE = ("case = generated definition (both build routes; namespace conventions prefix xtce / custom prefix / default "
         "namespace / none) with a fixed header date: written twice in-process, again after it decoded packets, and again after other definitions (with / without a SpaceSystem name, other header "
@@ -66,6 +66,13 @@ def digest_list(seed, ids):
 
 def run(ctx):
     import random
+    if ctx.shard % 2 == 1:
+        # every second worker lives in a time zone that is not UTC (the documents' header dates are naive ISO timestamps)
+        import os as _os
+        import time as _time
+        _os.environ["TZ"] = ("MST7", "CET-1CEST", "NST3:30")[(ctx.shard // 2) % 3]
+        _time.tzset()
+        ctx.count("environment.non_utc_time_zone")
     c11.arm_setattr(ctx)
     ids = [i for i in range(ctx.size(256, 20000)) if ctx.mine(i)]
     mine = {}
